@@ -14,6 +14,9 @@ CLAIMED = {
     "C09": ("Lean 4 theorems over translator-regenerated unit tables (decide +kernel over all unit pairs, lifted to every magnitude in any ordered field) + bit-exact correspondence run",
             "Proof: every clause of the property is a Lean theorem over the conversion tables regenerated from the Rust source on each run (identity, linearity, 0.1% round trip, 0.1% physical factor, create_time/create_speed/create_energy definitions and rejection), for all magnitudes in any linearly ordered field. The constructors' code shape is guarded by the translator and their behaviour tied by a bit-exact differential run on every unit combination.",
             "§5 C09"),
+    "C20": ("Lean 4 theorems over an executable model of the five route/tree output formats, concat_linestrings, the traversal/uuid/summary plugins and apply_output_processing + correspondence run that parses back the WKT/WKB/GeoJSON/JSON the real code prints",
+            "Proof: for every route, tree, geometry table and format the model's edge-id list, JSON records and GeoJSON features are the route's edges in order; the WKT/WKB/GeoJSON geometry is the concatenation of the stored linestrings in edge order (joint points kept); any missing row is an error (exact iff), at format level and as an error response through apply_output_processing wherever the plugin sits; tree outputs have one entry per branch and are permutation-invariant in the hash map's order; attached uuids are table[origin], table[destination] and the plugin never panics. The model is tied to the Rust code by a textual correspondence run through the real TraversalOutputFormat, traversal_ops, UUIDOutputPlugin::process and apply_output_processing with file-built plugins.",
+            "§5 C20"),
 }
 
 NOT_YET = {
